@@ -248,6 +248,23 @@ func c19Seqs[T any](runs [][]T) []iter.Seq[T] {
 
 func c19GCmp(a, b c19GEntry) int { return strings.Compare(a.key, b.key) }
 
+func c19Pick(mode string) func(a, b c19GEntry) c19GEntry {
+	switch mode {
+	case "newest":
+		return func(a, b c19GEntry) c19GEntry {
+			if a.seq > b.seq {
+				return a
+			}
+			return b
+		}
+	case "first":
+		return func(a, b c19GEntry) c19GEntry { return a }
+	case "second":
+		return func(a, b c19GEntry) c19GEntry { return b }
+	}
+	return func(a, b c19GEntry) c19GEntry { a.seq += 1000000; return a }
+}
+
 func (st *c19State) op(f []string) string {
 	n := func(i int) int { v, _ := strconv.Atoi(f[i]); return v }
 	switch f[0] {
@@ -308,6 +325,19 @@ func (st *c19State) op(f []string) string {
 			parts = append(parts, lib.Hex(nd.Key)+"="+lib.Hex(nd.Value))
 			if len(parts) > 100000 {
 				return "runaway"
+			}
+		}
+		if len(parts) == 0 {
+			return "list"
+		}
+		return "list " + strings.Join(parts, ",")
+	case "z.ascn":
+		// a consumer that breaks at its n-th item
+		var parts []string
+		for nd := range st.zip.AscendPrefix(lib.UnHex(f[1])) {
+			parts = append(parts, lib.Hex(nd.Key)+"="+lib.Hex(nd.Value))
+			if len(parts) >= n(2) {
+				break
 			}
 		}
 		if len(parts) == 0 {
@@ -481,6 +511,45 @@ func (st *c19State) op(f []string) string {
 	case "s.diff":
 		st.sets[n(3)] = st.sets[n(1)].Diff(st.sets[n(2)])
 		return "ok"
+	case "s.nil":
+		var ns *ds.Set[int]
+		cnt := 0
+		for range ns.All() {
+			cnt++
+		}
+		if ns.Size() != 0 || cnt != 0 {
+			return fmt.Sprintf("nil set: size %d, iterated %d", ns.Size(), cnt)
+		}
+		return "ok"
+	case "s.of":
+		st.sets[n(1)] = ds.SetOf(c19Nums(f[2])...)
+		return "ok"
+	case "s.str":
+		return st.sets[n(1)].String()
+	case "s.isolated":
+		// Added / Without / Diff work on clones: writing to (and appending through) their results must leave the source alone
+		src := st.sets[n(1)]
+		before := slices.Clone(src.Slice())
+		vs := c19Nums(f[2])
+		for name, res := range map[string]*ds.Set[int]{"Added": src.Added(vs...), "Without": src.Without(vs...), "Diff": src.Diff(ds.SetOf(vs...))} {
+			sl := res.Slice()
+			for i := range sl {
+				sl[i] = -777
+			}
+			res.Add(100001, 100002, 100003)
+			if !slices.Equal(src.Slice(), before) {
+				return name + " result shares its slice with the source"
+			}
+			for _, v := range before {
+				if !src.Has(v) {
+					return fmt.Sprintf("%s: source lost %d", name, v)
+				}
+			}
+			if src.Has(100001) || src.Has(-777) || src.Size() != len(before) {
+				return name + " result shares its map with the source"
+			}
+		}
+		return "ok"
 	case "s.has":
 		return strconv.FormatBool(st.sets[n(1)].Has(n(2)))
 	case "s.size":
@@ -518,6 +587,38 @@ func (st *c19State) op(f []string) string {
 			return "list"
 		}
 		return "list " + strings.Join(parts, ",")
+	case "m.alln":
+		var parts []string
+		for k, v := range st.smap.All() {
+			parts = append(parts, fmt.Sprintf("%d=%d", k, v))
+			if len(parts) >= n(1) {
+				break
+			}
+		}
+		if len(parts) == 0 {
+			return "list"
+		}
+		return "list " + strings.Join(parts, ",")
+	case "m.valsiso":
+		// scribbling over the slice returned by Values() must not change the map
+		before := map[int]int{}
+		for k, v := range st.smap.All() {
+			before[k] = v
+		}
+		vs := st.smap.Values()
+		for i := range vs {
+			vs[i] = -12345
+		}
+		_ = append(vs, 1, 2, 3)
+		for k, v := range before {
+			if got, ok := st.smap.Get(k); !ok || got != v {
+				return fmt.Sprintf("Get(%d) changed after writing to Values()", k)
+			}
+		}
+		if st.smap.Size() != len(before) {
+			return "size changed"
+		}
+		return "ok"
 	case "m.del":
 		return strconv.FormatBool(st.smap.Delete(n(1)))
 	case "m.size":
@@ -536,6 +637,45 @@ func (st *c19State) op(f []string) string {
 			out = append(out, c19GEntry{string(e.Key()), int(e.SeqNum()), string(e.Value())})
 		}
 		return c19ShowEntries(out)
+	case "mg.kvn":
+		runs := c19ParseRuns(f[2])
+		eruns := make([][]kv.Entry, len(runs))
+		for i, r := range runs {
+			for _, e := range r {
+				eruns[i] = append(eruns[i], &c19KVEntry{key: []byte(e.key), val: []byte(e.val), seq: uint64(e.seq)})
+			}
+		}
+		var out []c19GEntry
+		for e := range kv.MergeEntries(c19Seqs(eruns)) {
+			out = append(out, c19GEntry{string(e.Key()), int(e.SeqNum()), string(e.Value())})
+			if len(out) >= n(1) {
+				break
+			}
+		}
+		return c19ShowEntries(out)
+	case "mg.genn":
+		runs := c19ParseRuns(f[3])
+		var out []c19GEntry
+		for e := range mergesort.Merge(c19Seqs(runs), c19GCmp, c19Pick(f[1])) {
+			out = append(out, e)
+			if len(out) >= n(2) {
+				break
+			}
+		}
+		return c19ShowEntries(out)
+	case "ms.mergen":
+		runs := c19ParseRuns(f[2])
+		var keys []string
+		for e := range iteru.MergeSorted(c19Seqs(runs), c19GCmp) {
+			keys = append(keys, lib.Hex([]byte(e.key)))
+			if len(keys) >= n(1) {
+				break
+			}
+		}
+		if len(keys) == 0 {
+			return "keys"
+		}
+		return "keys " + strings.Join(keys, ",")
 	case "mg.thm":
 		// theorem instance on the implementation (C19.mergeEntries_newest_wins): for runs with ascending keys the
 		// output of kv.MergeEntries is strictly ascending, made of input entries, and the newest version of every key wins
@@ -585,27 +725,48 @@ func (st *c19State) op(f []string) string {
 		return "ok"
 	case "mg.gen":
 		runs := c19ParseRuns(f[2])
-		var pick func(a, b c19GEntry) c19GEntry
-		switch f[1] {
-		case "newest":
-			pick = func(a, b c19GEntry) c19GEntry {
-				if a.seq > b.seq {
-					return a
-				}
-				return b
-			}
-		case "first":
-			pick = func(a, b c19GEntry) c19GEntry { return a }
-		case "second":
-			pick = func(a, b c19GEntry) c19GEntry { return b }
-		default:
-			pick = func(a, b c19GEntry) c19GEntry { a.seq += 1000000; return a }
-		}
 		var out []c19GEntry
-		for e := range mergesort.Merge(c19Seqs(runs), c19GCmp, pick) {
+		for e := range mergesort.Merge(c19Seqs(runs), c19GCmp, c19Pick(f[1])) {
 			out = append(out, e)
 		}
 		return c19ShowEntries(out)
+	case "mg.pickthm":
+		// theorem instance on the implementation (C19.merge_any_pick): with a pick that returns one of its arguments and
+		// sorted runs, Merge does not panic, yields strictly ascending keys, only input items, and every input key
+		runs := c19ParseRuns(f[2])
+		for _, r := range runs {
+			for j := 1; j < len(r); j++ {
+				if !(r[j-1].key <= r[j].key) {
+					return "ok" // hypothesis (sorted runs) not met
+				}
+			}
+		}
+		var out []c19GEntry
+		for e := range mergesort.Merge(c19Seqs(runs), c19GCmp, c19Pick(f[1])) {
+			out = append(out, e)
+		}
+		for i := 1; i < len(out); i++ {
+			if !(out[i-1].key < out[i].key) {
+				return fmt.Sprintf("not-strictly-ascending at %d", i)
+			}
+		}
+		for _, o := range out {
+			found := false
+			for _, r := range runs {
+				found = found || slices.Contains(r, o)
+			}
+			if !found {
+				return "output-not-an-input"
+			}
+		}
+		for _, r := range runs {
+			for _, y := range r {
+				if !slices.ContainsFunc(out, func(o c19GEntry) bool { return o.key == y.key }) {
+					return "key-lost " + lib.Hex([]byte(y.key))
+				}
+			}
+		}
+		return "ok"
 	case "ms.merge", "ms.raw":
 		runs := c19ParseRuns(f[1])
 		var out []c19GEntry
@@ -816,6 +977,8 @@ func c19Gen(r *lib.Rng, tier string, i int) lib.Case {
 				add("z.reput %s %s", lib.Hex(c19Key(r)), lib.Hex(r.Bytes(r.Range(0, 2))))
 			case x < 52:
 				add("z.ascput %s %s %s", lib.Hex(c19Key(r)), lib.Hex(r.Bytes(r.Range(0, 2))), lib.Pick(r, []string{"fresh", "same"}))
+			case x < 56:
+				add("z.ascn %s %d", lib.Hex(lib.Pick(r, [][]byte{{}, {}, []byte("a"), {0xff}, c19Key(r)})), r.Range(1, 5))
 			case x < 72:
 				add("z.get %s", lib.Hex(c19Key(r)))
 			case x < 94:
@@ -956,9 +1119,17 @@ func c19Gen(r *lib.Rng, tier string, i int) lib.Case {
 				add("s.without %d %d %s", r.Intn(4), r.Intn(4), c19JoinInts(c19SomeInts(r, 4, 8)))
 			case x < 65:
 				add("s.diff %d %d %d", r.Intn(4), r.Intn(4), r.Intn(4))
-			case x < 80:
+			case x < 68:
+				add("s.of %d %s", r.Intn(4), c19JoinInts(c19SomeInts(r, 5, 8)))
+			case x < 72:
+				add("s.isolated %d %s", r.Intn(4), c19JoinInts(c19SomeInts(r, 4, 8)))
+			case x < 74:
+				add("s.nil")
+			case x < 78:
+				add("s.str %d", r.Intn(4))
+			case x < 86:
 				add("s.has %d %d", r.Intn(4), r.Intn(8))
-			case x < 88:
+			case x < 92:
 				add("s.size %d", r.Intn(4))
 			default:
 				add("s.slice %d", r.Intn(4))
@@ -966,6 +1137,7 @@ func c19Gen(r *lib.Rng, tier string, i int) lib.Case {
 		}
 		for j := 0; j < 4; j++ {
 			add("s.slice %d", j)
+			add("s.str %d", j)
 		}
 	case "smap":
 		kmax := lib.Pick(r, []int{4, 12, 1000})
@@ -979,8 +1151,12 @@ func c19Gen(r *lib.Rng, tier string, i int) lib.Case {
 				add("m.has %d", r.Intn(kmax))
 			case x < 66:
 				add("m.keys")
-			case x < 72:
+			case x < 70:
 				add("m.values")
+			case x < 72:
+				add("m.valsiso")
+			case x < 75:
+				add("m.alln %d", r.Range(1, 4))
 			case x < 78:
 				add("m.all")
 			case x < 94:
@@ -995,9 +1171,17 @@ func c19Gen(r *lib.Rng, tier string, i int) lib.Case {
 		n := min(nops, 12)
 		for len(ops) < n {
 			switch x := r.Intn(100); {
-			case x < 10:
+			case x < 8:
 				add("mg.thm %s", c19Runs(r, 5, 6, true, r.Bool(), true))
-			case x < 30:
+			case x < 13:
+				add("mg.pickthm %s %s", lib.Pick(r, []string{"first", "second", "newest"}), c19Runs(r, 5, 6, r.Bool(), r.Bool(), true))
+			case x < 18:
+				add("mg.kvn %d %s", r.Range(1, 6), c19Runs(r, 5, 6, true, true, true))
+			case x < 22:
+				add("mg.genn %s %d %s", lib.Pick(r, []string{"first", "second", "bad", "newest"}), r.Range(1, 5), c19Runs(r, 4, 5, r.Bool(), r.Bool(), r.Chance(4, 5)))
+			case x < 26:
+				add("ms.mergen %d %s", r.Range(1, 8), c19Runs(r, 5, 6, false, true, true))
+			case x < 36:
 				add("mg.kv %s", c19Runs(r, 5, 6, true, true, true))
 			case x < 50:
 				add("mg.gen newest %s", c19Runs(r, 5, 6, true, true, true))
@@ -1225,7 +1409,7 @@ func propC19() *lib.Prop {
 			return hits >= 2
 		},
 		MObs: func(op string) bool {
-			for _, p := range []string{"z.inv", "h.dump", "h.idx", "h.fix", "q.idx", "q.dump", "ms.raw", "mg.gen first", "mg.gen second", "mg.gen bad"} {
+			for _, p := range []string{"z.inv", "h.dump", "h.idx", "h.fix", "q.idx", "q.dump", "ms.raw", "mg.gen first", "mg.gen second", "mg.gen bad", "mg.genn first", "mg.genn second", "mg.genn bad"} {
 				if strings.HasPrefix(op, p) {
 					return true
 				}
